@@ -14,6 +14,35 @@ func Exec(prop string, raw json.RawMessage) (*evid.Violation, error) {
 	if err := json.Unmarshal(raw, &c); err != nil {
 		return nil, err
 	}
+	if c.Battery != nil {
+		// sentinel check: record what the sentinel returns now (this process is pristine), execute prelude and
+		// world, and look again
+		first := (&refCache{m: map[uint64]*refResult{}}).fresh(&ModelSpec{Bytes: c.Battery.Bytes}, c.Battery.Inputs, nil, false)
+		for i := range c.Prelude {
+			pc := cloneCase(&c.Prelude[i])
+			if pc.Sched != nil {
+				execute(pc, newReplay(pc.Sched), false, false)
+			} else {
+				execute(pc, nil, false, false)
+			}
+		}
+		wc := cloneCase(&c)
+		if wc.Sched != nil {
+			execute(wc, newReplay(wc.Sched), false, false)
+		} else {
+			execute(wc, nil, false, false)
+		}
+		again := (&refCache{m: map[uint64]*refResult{}}).fresh(&ModelSpec{Bytes: c.Battery.Bytes}, c.Battery.Inputs, nil, false)
+		same := first.Kind == again.Kind
+		d := fmt.Sprintf("outcome %s, before %s", again.Kind, first.Kind)
+		if same && first.Kind == "ok" {
+			same, d = equalOuts(first.Out, again.Out)
+		}
+		if same {
+			return nil, nil
+		}
+		return &evid.Violation{Property: prop, Signature: "process-state-changes-results:" + c.Battery.Op, What: "sentinel " + c.Battery.Name + ": " + d, Case: raw}, nil
+	}
 	for i := range c.Prelude {
 		pc := cloneCase(&c.Prelude[i])
 		if pc.Sched != nil {
